@@ -22,7 +22,6 @@ from harness.util import vec, stack, first_failures
 
 ID = 'C05'
 LEVEL = 'proof'
-PROPERTY_MODULES = ['PanqecVerif.Properties.C05', 'PanqecVerif.Properties.C05UnionFind']
 LEVEL_TEXT = ('Lean theorems for every CSS parity-check matrix (pure-X / pure-Z rows, any size), every error and '
               'every weight vector: under the stated solver contracts the corrections assembled by MatchingDecoder, '
               'UnionFindDecoder and BeliefPropagationOSDDecoder (CSS split; non-CSS full matrix with the halves '
@@ -109,7 +108,8 @@ ANCHOR_FILES = ['panqec/decoders/matching/_matching_decoder.py', 'panqec/decoder
                 'panqec/decoders/base/_base_decoder.py', 'panqec/config.py',
                 'panqec/error_models/_base_error_model.py', 'panqec/decoders/xcube/_xcube_matching_decoder.py',
                 'panqec/decoders/belief_propagation/mbp_decoder.py']
-PROPERTY_MODULES = ['PanqecVerif.Properties.C05', 'PanqecVerif.Properties.C05XCube', 'PanqecVerif.Properties.C05Mbp']
+PROPERTY_MODULES = ['PanqecVerif.Properties.C05', 'PanqecVerif.Properties.C05UnionFind', 'PanqecVerif.Properties.C05XCube',
+                    'PanqecVerif.Properties.C05Mbp']
 
 warnings.filterwarnings('ignore')
 
